@@ -589,6 +589,9 @@ def full_table_ops(ctx, n, op, extra):
             del loaded
     except RuntimeError:
         failed = True
+        if op == 'dynamic' and b._last_len is None:
+            ctx.violation('C17:reordering-disabled', 'the call that failed at the full table (inside the sifting '
+                          'of a dynamic reordering) left dynamic reordering switched off', case)
     finally:
         b.configure(reordering=False)
     ctx.case(('full-table-ops', n, op, failed), True)
